@@ -121,7 +121,8 @@ def c01_jobs(tier):
     # literals (shared with C16): a thin slice so that C01 stands on its own
     for n in [4, 5, 7]:
         js.append(job("ZZ_C16_TimeAccept", n=n))
-    js.append(job("ZZ_C16_DateAccept", n=10, century=20, _split=65536))
+    for c in ([0, 20] if q else [0, 20, 99]):
+        js.append(job("ZZ_C16_DateAccept", n=10, century=c, _split=65536))
     return js
 
 
@@ -228,7 +229,7 @@ def c17_jobs(tier):
 
 
 # ---------------------------------------------------------------- C03 / C04 / C05 / C11 (mutating commands)
-A_C03 = ["original-lines-survive-unchanged", "entry-inserted-after-the-records-last-line", "one-line-per-entry-line",
+A_C03 = ["template-is-valid", "original-lines-survive-unchanged", "entry-inserted-after-the-records-last-line", "one-line-per-entry-line",
          "other-lines-survive-byte-for-byte", "final-line-only-gains-a-line-ending", "text-before-placeholder-kept",
          "value-line-ending-kept", "no-line-removed", "switch-adds-one-entry-line", "stop-adds-no-line",
          "only-the-record-lines-are-added", "one-separating-blank-line", "extend-adds-no-line",
@@ -237,7 +238,7 @@ A_C04 = ["record-count", "record-date-in-file-order", "record-should-total", "re
          "entry-count", "entry-kind-and-value", "entry-summary-line-count", "entry-summary-text",
          "start-fails-iff-record-already-has-open-range", "stop-succeeds-iff-open-range-and-end-not-before-start",
          "pause-runs-iff-open-range-present", "pause-reports-error", "create-succeeds", "command-succeeds-iff-model-accepts"]
-A_C05 = ["failed-command-leaves-file-untouched", "written-file-is-valid", "track-succeeds-iff-entry-is-valid",
+A_C05 = ["target-file-still-exists", "bytes-on-disk-are-the-validated-result", "failed-command-leaves-file-untouched", "written-file-is-valid", "track-succeeds-iff-entry-is-valid",
          "command-on-invalid-file-fails", "switch-with-failing-second-step-fails", "failure-has-nonzero-exit-code"]
 A_C11 = ["inserted-line-uses-record-or-file-indentation", "inserted-line-uses-file-line-ending", "repeat-same-outcome",
          "repeat-yields-identical-bytes", "unanimous-indentation-is-used", "unanimous-line-ending-is-used", "track-on-new-date-succeeds"]
@@ -256,12 +257,12 @@ def c03_jobs(tier):
     for L in ([1, 2] if q else [1, 2, 3]):
         for f, r in (FMT_ROT_QUICK if L < 3 else [(0, 1), (2, 3)]):
             js.append(mut("ZZ_Mut_Track", L, f, r))
-    js += [mut("ZZ_Mut_Create", 2, 1, 0)]
+    js += [mut("ZZ_Mut_Create", 2, 1, 0), job("ZZ_Mut_Layouts", C)]
     js += [mut("ZZ_Mut_Stop", 2, 2, 3, sw=0), mut("ZZ_Mut_Stop", 3, 0, 1, sw=0, nd=2), mut("ZZ_Mut_Stop", 3, 1, 2, sw=1, nd=2)]
     js += [mut("ZZ_Mut_Pause", 2, 0, 0, ticks=1, extend=0)]
     if not q:
         js += [mut("ZZ_Mut_Start", 2, f, r) for f, r in FMT_ROT_QUICK]
-        js += [mut("ZZ_Mut_Pause", 3, 2, 2, ticks=1, extend=1), mut("ZZ_Mut_Create", 3, 0, 2), mut("ZZ_Mut_Create", 2, 2, 3),
+        js += [mut("ZZ_Mut_Pause", 3, 2, 2, ticks=1, extend=1, tab=1), mut("ZZ_Mut_Create", 3, 0, 2), mut("ZZ_Mut_Create", 2, 2, 3),
                mut("ZZ_Mut_Stop", 3, 2, 0, sw=0), mut("ZZ_Mut_Stop", 3, 0, 3, sw=1)]
     for L in range(1, (3 if q else 4) + 1):
         js.append(job("ZZ_C08_NoopReconcile", U, L=L, fmt=L % 3, rot=L % 4))
@@ -273,9 +274,9 @@ def c04_jobs(tier):
     js = [mut("ZZ_Mut_Start", 2, 0, 2, nd=3), mut("ZZ_Mut_Stop", 3, 1, 0, sw=0, nd=2), mut("ZZ_Mut_Stop", 3, 2, 1, sw=1, nd=2),
           mut("ZZ_Mut_Track", 2, 1, 1), mut("ZZ_Mut_Create", 2, 0, 3),
           mut("ZZ_Mut_Pause", 2, 1, 1, ticks=2, extend=0), mut("ZZ_Mut_Pause", 2, 0, 2, ticks=1, extend=0),
-          mut("ZZ_Mut_History", 2, 1, 1, steps=2, nd=2), mut("ZZ_Mut_History", 1, 0, 0, steps=3)]
+          mut("ZZ_Mut_History", 2, 1, 1, steps=2, nd=2), mut("ZZ_Mut_History", 1, 0, 0, steps=3), job("ZZ_Mut_Layouts", C)]
     if not q:
-        js += [mut("ZZ_Mut_Pause", 3, 2, 2, ticks=1, extend=1), mut("ZZ_Mut_Pause", 2, 0, 1, ticks=3, extend=0),
+        js += [mut("ZZ_Mut_Pause", 3, 2, 2, ticks=1, extend=1, tab=1), mut("ZZ_Mut_Pause", 2, 0, 1, ticks=3, extend=0),
                mut("ZZ_Mut_History", 2, 0, 3, steps=3), mut("ZZ_Mut_History", 1, 2, 0, steps=4), mut("ZZ_Mut_Track", 3, 0, 1),
                mut("ZZ_Mut_Create", 3, 1, 2), mut("ZZ_Mut_Start", 2, 1, 3), mut("ZZ_Mut_Stop", 3, 0, 2, sw=0), mut("ZZ_Mut_Stop", 3, 1, 3, sw=1)]
     return js
@@ -286,6 +287,7 @@ def c05_jobs(tier):
     js = []
     for L in ([1, 2, 3] if q else [1, 2, 3, 4]):
         js.append(mut("ZZ_Mut_InvalidTarget", L, L % 3, L % 4))
+    js += [job("ZZ_C05_RealContext", C)]
     js += [mut("ZZ_Mut_Track", 2, 0, 0), mut("ZZ_Mut_Stop", 2, 1, 1, sw=0), mut("ZZ_Mut_Stop", 3, 2, 2, sw=1, nd=2),
            mut("ZZ_Mut_Pause", 2, 2, 3, ticks=1, extend=0), mut("ZZ_Mut_Create", 2, 1, 2)]
     if not q:
@@ -295,7 +297,7 @@ def c05_jobs(tier):
 
 def c11_jobs(tier):
     q = tier == "quick"
-    js = [job("ZZ_C11_Election", C)]
+    js = [job("ZZ_C11_Election", C), job("ZZ_Mut_Layouts", C)]
     for f, r in (FMT_ROT_QUICK if q else FMT_ROT_ALL):
         js.append(mut("ZZ_Mut_Track", 2, f, r))
     js += [mut("ZZ_Mut_Create", 2, 0, 1), mut("ZZ_Mut_Start", 2, 1, 0 if q else 3, nd=3 if q else 6)]
@@ -339,6 +341,7 @@ def c18_jobs(tier):
     return [job("ZZ_C18_Styling", C, cmd=c) for c in range(6)]
 
 
+VFS_STUB = "os.ReadFile/WriteFile/OpenFile(+O_CREATE,O_TRUNC,O_APPEND,O_EXCL)/Create/Rename/Remove/Stat and *os.File Write/WriteString/Sync/Close/Truncate/Seek: in-engine virtual file system (path -> bytes); the REAL app.context (NewContext, ReconcileFile, ReadFile, WriteToFile, FileRetriever) runs on it in ZZ_C05_RealContext"
 MUT_STUBS = [MODELS["regexp"], MODELS["fmt"], MODELS["utf8"], MODELS["builder"], MODELS["bytealg"],
              "app.Context: harness implementation (zzContext) that holds the target file as text and mirrors app.context.ReconcileFile (parse -> ApplyReconciler -> write only on success)",
              "time.NewTicker/signal.Notify: a tick is always ready; the harness scripts the clock and cuts the endless pause loop after k ticks",
@@ -441,10 +444,10 @@ CHECKS = {
         "stubs": MUT_STUBS, "assumptions": MUT_ASSUME + ["the abstract model is the generator's denotation of the file (records as lists of (kind, values, summary)), advanced per command in the harness"],
     },
     "C05": {
-        "jobs": c05_jobs, "asserts": A_C05,
+        "jobs": c05_jobs, "asserts": A_C05, "extra_stubs": [VFS_STUB],
         "bounds": {"quick": "every generated 1-3 line file with an injected rule violation x {track,start,stop,create,switch}; switch whose second step fails; track with non-entry text; stop/pause without open range or with end before start",
                    "thorough": "4-line invalid files; histories"},
-        "outside": "the process exit status itself (main.Run goes through kong / errors.As: reflection, not encodable; Error.Code() of the returned error is checked); real file-system failures",
+        "outside": "the process exit status itself (main.Run goes through kong / errors.As: reflection, not encodable; Error.Code() of the returned error is checked); file-system FAILURES (permissions, full disk, crash between write calls): the virtual file system never fails",
         "stubs": MUT_STUBS, "assumptions": MUT_ASSUME,
     },
     "C11": {
